@@ -5,7 +5,7 @@ P=$1; D=$(realpath "$2"); T=${3:-quick}
 cd /verif
 git -C /repo diff --quiet || { echo "/repo dirty"; exit 2; }
 cp evidence/$P.json /tmp/evid.$$.json 2>/dev/null
-git -C /repo apply "$D/patch.diff" 2>/dev/null || { git -C /repo apply --3way "$D/patch.diff" && git -C /repo reset -q; } || { echo "PATCH DOES NOT APPLY"; git -C /repo checkout -- . ; exit 3; }
+git -C /repo apply "$D/patch.diff" 2>/dev/null || { git -C /repo apply --3way "$D/patch.diff" && git -C /repo reset -q; } || { echo "PATCH DOES NOT APPLY"; git -C /repo reset -q --hard HEAD; exit 3; }
 ./check $P --tier $T > /tmp/seedrun.$$.log 2>&1; RC=$?
 git -C /repo checkout -- . ; git -C /repo clean -fdq
 tail -6 /tmp/seedrun.$$.log; rm -f /tmp/seedrun.$$.log
